@@ -38,6 +38,17 @@ func gen(r *Rng, tier string, emit Emit) {
 			emit("C", "saveclass", H(b))
 		}
 	}
+	// ME flash partition tables: valid seeds and boundary values of every header field
+	for it := 0; it < 6; it++ {
+		rr := r.Fork(uint64(1000 + it))
+		me, fields := uefigen.GenMEFPT(rr, rr.Pick(0, 1, 3, 12))
+		emit("P", "p_total", H(me), "-")
+		for _, f := range fields {
+			for _, v := range uefigen.BoundaryValues(f) {
+				emit("P", "p_total", H(uefigen.Mutate(me, f, v)), "-")
+			}
+		}
+	}
 	for it := 0; it < n; it++ {
 		rr := r.Fork(uint64(it))
 		o := uefigen.Opts{MaxDepth: rr.Pick(0, 1, 2), Strings: true, Alignments: rr.Bool(), BigBodies: false}
